@@ -364,3 +364,276 @@ func (h *c08) resultsField(n, nInv int) {
 		}
 	}
 }
+
+// a point on the curve in projective coordinates with a random Z (computed by the implementation)
+func (h *c08) randPoint(i int) *sm2.VerifPoint {
+	p, err := sm2.VerifScalarBaseMult(h.validScalar(i))
+	if err != nil {
+		fatal("ScalarBaseMult: %v", err)
+	}
+	return p
+}
+
+func clonePoint(p *sm2.VerifPoint) *sm2.VerifPoint { return sm2.VerifNewPoint().Set(p) }
+
+func (h *c08) resultsPoints(nMed, nBig int) {
+	c := h.c
+	inf := sm2.VerifNewPoint()
+	h.run("internal.NewSM2Point", "const", false, nil, "ok "+vPoint(inf))
+	two := func(p *sm2.VerifPoint) string { v := vPoint(p); return "ok " + v + " " + v }
+	for i := 0; i < nMed; i++ {
+		p, q := h.randPoint(i), h.randPoint(i+1)
+		class := "generic"
+		switch i % 4 {
+		case 1:
+			q = clonePoint(p) // doubling through Add
+			class = "equal"
+		case 2:
+			q = sm2.VerifNewPoint().Negate(p) // sum = infinity
+			class = "opposite"
+		case 3:
+			q = sm2.VerifNewPoint()
+			class = "infinity"
+		}
+		h.run("internal.SM2Point.Add", class, false, []string{vZeroPoint, vPoint(p), vPoint(q)}, two(sm2.VerifNewPoint().Add(p, q)))
+		h.run("internal.SM2Point.Double", class, i > 3, []string{vZeroPoint, vPoint(q)}, two(sm2.VerifNewPoint().Double(q)))
+		h.run("internal.SM2Point.Negate", class, i > 1, []string{vZeroPoint, vPoint(p)}, two(sm2.VerifNewPoint().Negate(p)))
+		h.run("internal.SM2Point.Set", class, i > 1, []string{vZeroPoint, vPoint(p)}, two(sm2.VerifNewPoint().Set(p)))
+		for cond := 0; cond <= 1; cond++ {
+			h.run("internal.SM2Point.Select", fmt.Sprint(cond), i > 1, []string{vZeroPoint, vPoint(p), vPoint(q), fmt.Sprint(cond)}, two(sm2.VerifNewPoint().Select(p, q, cond)))
+		}
+		// coordinate extraction: safe and unsafe variants agree with the implementation
+		h.run("internal.SM2Point.GetAffineX", class, i > 3, []string{vPoint(q)}, "ok "+q.GetAffineX().String())
+		h.run("internal.SM2Point.GetAffineX_Unsafe", class, i > 3, []string{vPoint(q)}, "ok "+q.GetAffineX_Unsafe().String())
+		h.run("internal.SM2Point.Bytes", class, i > 3, []string{vPoint(q)}, "ok "+vInts(q.Bytes()))
+		h.run("internal.SM2Point.Bytes_Unsafe", class, i > 3, []string{vPoint(q)}, "ok "+vInts(q.Bytes_Unsafe()))
+	}
+	three, twoT := sm2.VerifTables()
+	// table selection: every window value on the three sub-tables of the 6-3-14 scheme and the remainder
+	tab := three["sm2Precomputed_6_3_14"]
+	for j := range tab {
+		ts := vTable2(tab[j])
+		for bits := 0; bits < 64; bits++ {
+			if c.tier != "thorough" && bits > 3 && bits < 60 && bits%7 != j {
+				continue
+			}
+			q := h.randPoint(bits)
+			arg := vPoint(q)
+			q.MultiSelectXY(&tab[j], 63, byte(bits))
+			h.run("internal.SM2Point.MultiSelectXY", fmt.Sprintf("t%d/bits%d", j, bits), bits%16 != 0, []string{arg, ts, "63", fmt.Sprint(bits)}, two(q))
+		}
+	}
+	rem := twoT["sm2Precomputed_6_3_14_Remainder"]
+	for bits := 0; bits < 16; bits++ {
+		q := sm2.VerifNewPoint()
+		q.MultiSelectXY(&rem, 15, byte(bits))
+		h.run("internal.SM2Point.MultiSelectXY", fmt.Sprintf("rem/bits%d", bits), bits > 1, []string{vPoint(sm2.VerifNewPoint()), vTable2(rem), "15", fmt.Sprint(bits)}, two(q))
+	}
+	// MultiSelectXYZ on the table TransformPrecomputed builds in ScalarMult is covered through ScalarMult
+	for i := 0; i < nMed; i++ {
+		k := h.secretBytes(32, i)
+		p, err := sm2.VerifScalarBaseMult(k)
+		impl := "ok " + vZeroPoint + " 1"
+		if err == nil {
+			impl = "ok " + vPoint(p) + " 0"
+		}
+		h.run("internal.ScalarBaseMult", fmt.Sprintf("pattern%d", i%6), false, []string{vBytes(k)}, impl)
+	}
+	for _, l := range []int{0, 31, 33} {
+		k := c.rng.Bytes(l)
+		_, err := sm2.VerifScalarBaseMult(k)
+		h.run("internal.ScalarBaseMult", "len", false, []string{vBytes(k)}, "ok "+vZeroPoint+" "+errFlag(err))
+	}
+	for i, sch := range []string{"5_3_17", "4_2_32", "7_3_12", "6_3_14"} {
+		for r := 0; r < 1+nBig/2; r++ {
+			k := h.secretBytes(32, i+r)
+			p, err := sm2.VerifScalarBaseMultScheme(sch, k)
+			if err != nil {
+				continue
+			}
+			h.run("internal.scalarBaseMult_SkipBitExtraction_"+sch, "pattern", false, []string{vBytes(k)}, "ok "+vPoint(p)+" 0")
+		}
+	}
+	for i := 0; i < nBig; i++ {
+		P := h.randPoint(i)
+		k := h.secretBytes(32, i+2)
+		if i == 1 {
+			k = h.secretBytes(5, 4) // any length is accepted
+		}
+		r, err := sm2.VerifScalarMult(P, k)
+		h.run("internal.ScalarMult", fmt.Sprintf("len%d", len(k)), false, []string{vPoint(P), vBytes(k)}, "ok "+vPoint(r)+" "+errFlag(err))
+	}
+}
+
+func (h *c08) resultsEntry(nBig int) {
+	for i := 0; i < nBig+1; i++ {
+		priv := h.validScalar(i)
+		x, y, err := sm2.DerivePublic(priv)
+		h.run("sm2.DerivePublic", fmt.Sprintf("pattern%d", i%6), false, []string{vBytes(priv)}, "ok "+vInts(x)+" "+vInts(y)+" "+errFlag(err))
+		// GenerateKey / SignHashed: the IR's "reader" is an integer whose 32-byte encoding every read returns
+		rd := new(big.Int).SetBytes(priv).String()
+		p2, gx, gy, err := sm2.GenerateKey(&scriptReader{items: dataScript(priv)})
+		h.run("sm2.GenerateKey", "valid", false, []string{rd}, "ok "+vInts(p2)+" "+vInts(gx)+" "+vInts(gy)+" "+errFlag(err))
+		K := h.validScalar(i + 3)
+		e := h.c.rng.Bytes(32)
+		r, s, err := sm2.SignHashed(&scriptReader{items: dataScript(K, K, K, K)}, priv, e)
+		h.run("sm2.SignHashed", "valid", false, []string{new(big.Int).SetBytes(K).String(), vBytes(priv), vBytes(e)}, "ok "+vInts(r)+" "+vInts(s)+" "+errFlag(err))
+	}
+}
+
+// ---- (b) trace pairs -----------------------------------------------------------------------------------
+
+func (h *c08) tracePairs(nSmall, nMed, nBig int) {
+	c := h.c
+	ze := "[[0,0,0,0]]"
+	z4 := "[0,0,0,0]"
+	// comparison of secret byte strings (public length)
+	for i := 0; i < nSmall; i++ {
+		l := 1 + c.rng.Intn(33)
+		a1, b1, a2, b2 := h.secretBytes(l, i), h.secretBytes(l, i+1), h.secretBytes(l, i+2), h.secretBytes(l, i+3)
+		h.pair("utils.ConstantTimeCmp", "patterns", []string{vBytes(a1), vBytes(b1), fmt.Sprint(l)}, []string{vBytes(a2), vBytes(b2), fmt.Sprint(l)}, "")
+		// same verdict forced: compare both with a larger constant
+		top := make([]byte, l)
+		for j := range top {
+			top[j] = 0xff
+		}
+		a1[0] &= 0x7f
+		a2[0] &= 0x7f
+		h.pair("utils.ConstantTimeCmp", "less", []string{vBytes(a1), vBytes(top), fmt.Sprint(l)}, []string{vBytes(a2), vBytes(top), fmt.Sprint(l)}, "")
+	}
+	// range test of a private key
+	for i := 0; i < nSmall; i++ {
+		h.pair("sm2.TestPrivateKey", "valid", []string{vBytes(h.validScalar(i))}, []string{vBytes(h.validScalar(i + 1))}, "")
+		l := c.rng.Intn(32)
+		p1, p2 := h.secretBytes(l, i), h.secretBytes(l, i+1)
+		if l > 0 {
+			p1[l-1] |= 1
+			p2[0] |= 0x80
+		}
+		h.pair("sm2.TestPrivateKey", "short", []string{vBytes(p1)}, []string{vBytes(p2)}, "")
+	}
+	// bit extraction
+	for i := 0; i < nSmall; i++ {
+		k1, k2 := h.secretBytes(32, i), h.secretBytes(32, i+1)
+		idx := c.rng.Intn(14) + c.rng.Intn(3)*14 + 4
+		h.pair("internal.extractHigherBits", "6_3_14", []string{vBytes(k1), fmt.Sprint(idx), "6", "42"}, []string{vBytes(k2), fmt.Sprint(idx), "6", "42"}, "")
+		h.pair("internal.extractLowerBits", "r4", []string{vBytes(k1), "4"}, []string{vBytes(k2), "4"}, "")
+		bit := fmt.Sprint(c.rng.Intn(256))
+		h.pair("internal.extractBit", "bit", []string{vBytes(k1), bit}, []string{vBytes(k2), bit}, "")
+	}
+	// table selection: every window value against window value 0
+	three, twoT := sm2.VerifTables()
+	tab := three["sm2Precomputed_6_3_14"]
+	q := vPoint(h.randPoint(0))
+	for j := range tab {
+		ts := vTable2(tab[j])
+		for bits := 1; bits < 64; bits++ {
+			if c.tier != "thorough" && j > 0 && bits%5 != 0 {
+				continue
+			}
+			h.pair("internal.SM2Point.MultiSelectXY", fmt.Sprintf("t%d", j), []string{q, ts, "63", "0"}, []string{q, ts, "63", fmt.Sprint(bits)}, "")
+			if j == 0 {
+				h.pair("internal.selectPoints", "t0", []string{q, ts, "63", "0"}, []string{q, ts, "63", fmt.Sprint(bits)}, "")
+			}
+		}
+	}
+	rem := vTable2(twoT["sm2Precomputed_6_3_14_Remainder"])
+	for bits := 1; bits < 16; bits++ {
+		h.pair("internal.SM2Point.MultiSelectXY", "rem", []string{q, rem, "15", "0"}, []string{q, rem, "15", fmt.Sprint(bits)}, "")
+	}
+	// MultiSelectXYZ / MultiSelect on a table of projective points (three coordinate rows)
+	xyz := "[" + vTable2(tab[0])[1:len(vTable2(tab[0]))-1] + "," + vTable2(tab[1][:1])[1:]
+	for bits := 1; bits < 64; bits += 3 {
+		h.pair("internal.SM2Point.MultiSelectXYZ", "t0", []string{q, xyz, "63", "0"}, []string{q, xyz, "63", fmt.Sprint(bits)}, "")
+		row := "[" + strings.TrimSuffix(strings.TrimPrefix(vTable2(tab[0][:1]), "[["), "]]") + "]"
+		h.pair("fiat.SM2Element.MultiSelect", "row", []string{ze, row, "63", "0", ze, "1"}, []string{ze, row, "63", fmt.Sprint(bits), vElem(randCanon(c, curveP)), "0"}, "")
+	}
+	// field / scalar arithmetic, primitives and wrappers
+	for _, f := range []struct {
+		pfx, el string
+		m       *big.Int
+	}{{"fiat.sm2", "fiat.SM2Element", curveP}, {"fiat.sm2Scalar", "fiat.SM2ScalarElement", curveN}} {
+		for i := 0; i < nMed; i++ {
+			a1, b1, a2, b2 := randCanon(c, f.m), randCanon(c, f.m), randCanon(c, f.m), randCanon(c, f.m)
+			for _, op := range []string{"Mul", "Add", "Sub"} {
+				h.pair(f.pfx+op, "canon", []string{z4, vLimbs(a1), vLimbs(b1)}, []string{z4, vLimbs(a2), vLimbs(b2)}, "")
+				h.pair(f.el+"."+op, "canon", []string{ze, vElem(a1), vElem(b1)}, []string{ze, vElem(a2), vElem(b2)}, "")
+			}
+			for _, op := range []string{"Square", "Opp", "FromMontgomery", "ToMontgomery"} {
+				h.pair(f.pfx+op, "canon", []string{z4, vLimbs(a1)}, []string{z4, vLimbs(a2)}, "")
+			}
+			h.pair(f.pfx+"Selectznz", "cond", []string{z4, "0", vLimbs(a1), vLimbs(b1)}, []string{z4, "1", vLimbs(a2), vLimbs(b2)}, "")
+			h.pair(f.el+".Select", "cond", []string{ze, vElem(a1), vElem(b1), "0"}, []string{ze, vElem(a2), vElem(b2), "1"}, "")
+			h.pair(f.el+".Square", "canon", []string{ze, vElem(a1)}, []string{ze, vElem(a2)}, "")
+			h.pair(f.el+".Set", "canon", []string{ze, vElem(a1)}, []string{ze, vElem(a2)}, "")
+			h.pair(f.el+".Bytes", "canon", []string{vElem(a1)}, []string{vElem(a2)}, "")
+			h.pair(f.el+".IsZero", "canon", []string{vElem(a1)}, []string{vElem(a2)}, "")
+			h.pair(f.el+".Equal", "canon", []string{vElem(a1), vElem(b1)}, []string{vElem(a2), vElem(b2)}, "")
+			h.pair(f.pfx+"ToBytes", "canon", []string{vBytes(make([]byte, 32)), vLimbs(a1)}, []string{vBytes(make([]byte, 32)), vLimbs(a2)}, "")
+			h.pair(f.pfx+"FromBytes", "canon", []string{z4, vBytes(h.secretBytes(32, i))}, []string{z4, vBytes(h.secretBytes(32, i+1))}, "")
+			if i < 3 {
+				var one, zero [4]uint64
+				one[0] = 1
+				h.pair(f.el+".Invert", "canon", []string{ze, vElem(a1)}, []string{ze, vElem(a2)}, "")
+				h.pair(f.el+".Invert", "zero-one", []string{ze, vElem(zero)}, []string{ze, vElem(one)}, "")
+			}
+		}
+	}
+	h.pair("fiat.SM2Element.Opp", "canon", []string{ze, vElem(randCanon(c, curveP))}, []string{ze, vElem(randCanon(c, curveP))}, "")
+	// SetBytes: field version (ConstantTimeCmp) and scalar version (early-exit loop: rejected by the checker)
+	for i := 0; i < nMed; i++ {
+		v1 := be32(new(big.Int).Mod(new(big.Int).SetBytes(h.secretBytes(32, i)), curveN))
+		v2 := be32(new(big.Int).Mod(new(big.Int).SetBytes(h.secretBytes(32, i+1)), curveN))
+		h.pair("fiat.SM2Element.SetBytes", "valid", []string{ze, vBytes(v1)}, []string{ze, vBytes(v2)}, "")
+		if i < 4 {
+			h.pair("fiat.SM2ScalarElement.SetBytes", "valid", []string{ze, vBytes(v1)}, []string{ze, vBytes(v2)},
+				"known: SM2ScalarElement.SetBytes compares with an early-exit loop (sm2/internal/fiat/sm2_scalar_element.go:99); the checker rejects it (reject_SetBytes_n)")
+		}
+	}
+	// point arithmetic, coordinate extraction (safe variants)
+	for i := 0; i < nMed; i++ {
+		p1, q1, p2, q2 := h.randPoint(i), h.randPoint(i+1), h.randPoint(i+2), h.randPoint(i+3)
+		if i%3 == 1 {
+			q1 = clonePoint(p1) // P + P against generic
+		}
+		if i%3 == 2 {
+			q1 = sm2.VerifNewPoint() // P + O against generic
+		}
+		h.pair("internal.SM2Point.Add", fmt.Sprintf("case%d", i%3), []string{vZeroPoint, vPoint(p1), vPoint(q1)}, []string{vZeroPoint, vPoint(p2), vPoint(q2)}, "")
+		h.pair("internal.SM2Point.Double", fmt.Sprintf("case%d", i%3), []string{vZeroPoint, vPoint(q1)}, []string{vZeroPoint, vPoint(q2)}, "")
+		h.pair("internal.SM2Point.Negate", "generic", []string{vZeroPoint, vPoint(p1)}, []string{vZeroPoint, vPoint(p2)}, "")
+		h.pair("internal.SM2Point.Set", "generic", []string{vZeroPoint, vPoint(p1)}, []string{vZeroPoint, vPoint(p2)}, "")
+		h.pair("internal.SM2Point.Select", "generic", []string{vZeroPoint, vPoint(p1), vPoint(q1), "0"}, []string{vZeroPoint, vPoint(p2), vPoint(q2), "1"}, "")
+		if i < 3 {
+			h.pair("internal.SM2Point.GetAffineX", "finite", []string{vPoint(p1)}, []string{vPoint(p2)}, "")
+			h.pair("internal.SM2Point.Bytes", "finite", []string{vPoint(p1)}, []string{vPoint(p2)}, "")
+		}
+	}
+	// scalar multiplications: leading zero / 0xFF bytes, 1, n-1, random
+	ks := [][]byte{be32(big.NewInt(1)), be32(new(big.Int).Sub(curveN, big.NewInt(1))), make([]byte, 32)}
+	for i := 0; i < nMed; i++ {
+		ks = append(ks, h.secretBytes(32, i))
+	}
+	for i := 1; i < len(ks); i++ {
+		h.pair("internal.ScalarBaseMult", "patterns", []string{vBytes(ks[0])}, []string{vBytes(ks[i])}, "")
+	}
+	for _, sch := range []string{"5_3_17", "4_2_32", "7_3_12"} {
+		h.pair("internal.scalarBaseMult_SkipBitExtraction_"+sch, "patterns", []string{vBytes(ks[0])}, []string{vBytes(ks[3])}, "")
+	}
+	P1, P2 := h.randPoint(1), h.randPoint(2)
+	for i := 0; i < nBig; i++ {
+		h.pair("internal.ScalarMult", "patterns", []string{vPoint(P1), vBytes(ks[i])}, []string{vPoint(P2), vBytes(ks[len(ks)-1-i])}, "")
+	}
+	// entry points (rejected by the checker on the current sources): two keys / two nonces
+	d1, d2 := h.validScalar(0), h.validScalar(4)
+	h.pair("sm2.DerivePublic", "keys", []string{vBytes(d1)}, []string{vBytes(d2)},
+		"known: DerivePublic converts [d]G with Bytes_Unsafe (sm2/sm2.go:27): big.Int.ModInverse of the secret-dependent Z (reject_DerivePublic)")
+	h.pair("sm2.GenerateKey", "keys", []string{new(big.Int).SetBytes(d1).String()}, []string{new(big.Int).SetBytes(d2).String()},
+		"known: GenerateKey converts [d]G with Bytes_Unsafe (sm2/sm2.go:73) (reject_GenerateKey)")
+	e := c.rng.Bytes(32)
+	K1, K2 := h.validScalar(5), h.validScalar(2)
+	h.pair("sm2.SignHashed", "nonces", []string{new(big.Int).SetBytes(K1).String(), vBytes(d1), vBytes(e)}, []string{new(big.Int).SetBytes(K2).String(), vBytes(d1), vBytes(e)},
+		"known: SignHashed takes x([k]G) with GetAffineX_Unsafe (sm2/sm2.go:231) and decodes 1+d with SM2ScalarElement.SetBytes (sm2/sm2.go:264) (reject_SignHashed)")
+}
+
+func init() { runners["C08"] = runC08 }
